@@ -32,3 +32,10 @@ def replay(ctx, path):
         print("VIOLATION property=%s replay=%s" % (v["prop"], path))
         print("  " + v["what"][:1500])
     return 1 if ctx.violations else 0
+
+
+def plan_tmp(ctx):
+    run_family(ctx, "roundtrip", 100, perfile=10)
+    run_family(ctx, "merge_obs", 200, perfile=10)
+
+PLANS["TMP"] = plan_tmp
